@@ -143,14 +143,26 @@ class Probe(object):
         tup = '(%s,)' % ', '.join(["'R'"] + parts)
         if result_mode == 'str':
             tup = 'repr(%s)' % tup
-        src = ('def P(%s):\n'
+        # about a third of the bindings map to a falsy result (None, 0, '', False): a cache
+        # that mistakes a stored falsy value for "absent" must be visible
+        src = ('def _FALSY(r):\n'
+               '    try:\n'
+               '        h = sum(ord(c) for c in repr(r)) %% 12\n'
+               '    except Exception:\n'
+               '        return r\n'
+               '    if h == 0: return None\n'
+               '    if h == 1: return 0\n'
+               '    if h == 2: return \'\'\n'
+               '    if h == 3: return False\n'
+               '    return r\n'
+               'def P(%s):\n'
                '    _LOG.append(1)\n'
                '    if _ARM[0] is not None:\n'
                '        e = _ARM[0]; _ARM[0] = None\n'
                '        raise e\n'
-               '    return %s\n'
+               '    return _FALSY(%s)\n'
                'def RAW(%s):\n'
-               '    return %s\n') % (sig, tup, sig, tup)
+               '    return _FALSY(%s)\n') % (sig, tup, sig, tup)
         self.src = src
         self.ns = {'__name__': '__kvprobe__', '_LOG': [], '_ARM': [None]}
         exec(src, self.ns)
@@ -207,7 +219,7 @@ SIGS = ['x', 'x, y=2', 'x, y', 'x, *args', '*args', 'x, y=2, **kw', 'x, y=2, *ar
 
 # values: no two of them are ==-equal with different type/repr (merging by an untyped
 # keymap is C10's subject, not the cache engine's); no '/', no NaN, no address reprs.
-UNIVERSE = [0, 1, 2, 3, 'a', 'b', 'a-b', 'a_b', '1', 2.5, -1, None, (1, 2), 'x']
+UNIVERSE = [0, 1, 2, 3, 'a', 'b', 'B', 'a-b', 'a_b', '1', 2.5, -1, None, (1, 2), 'x']
 
 
 def gen_call(rng, sig, universe):
